@@ -215,6 +215,10 @@ struct Tracker {
     }
 };
 
+bool g_dtor_inflight = false;
+Env *g_env;
+void hook_resolve_all() { resolve_everything(*g_env); }
+
 template<typename G, typename Mk> void run(Mk &&make_source) {
     constexpr bool with_arg = !G::arg_is_void;
     vf_warmup();
@@ -302,9 +306,12 @@ template<typename G, typename Mk> void run(Mk &&make_source) {
                 t.seen(got);
             }
             if (t.ended) VF_ASSERT(g.done(), "C14 done() holds after the end indication");
-            // destroying the aggregate waits for in-flight sources; with one thread they have to be completed first
-            while (resolve_one_waiting(e)) { }
+            // destroying the aggregate waits for in-flight sources; with one thread they have to be completed first -
+            // or (entries h_aggr_dtor / h_aggr_arg_dtor) another thread completes them while the destructor is blocked (wait hook)
+            if (g_dtor_inflight) { g_env = &e; vf_wait_arm(&hook_resolve_all); }
+            else while (resolve_one_waiting(e)) { }
         }
+        if (g_dtor_inflight) vf_wait_done();
         for (int k = 0; k < e.nsrc; ++k) {
             VF_ASSERT(e.s[k].probes.constructed <= 1 && e.s[k].probes.destroyed == e.s[k].probes.constructed,
                       "C14 destroying the aggregate destroys every source's locals exactly once");
@@ -319,6 +326,8 @@ template<typename G, typename Mk> void run(Mk &&make_source) {
 
 #ifndef VF_C14_ARG
 extern "C" void h_aggr() { run<generator<Val>>([](Src *s, int id) { return source(s, id); }); }
+extern "C" void h_aggr_dtor() { g_dtor_inflight = true; run<generator<Val>>([](Src *s, int id) { return source(s, id); }); }
 #else
 extern "C" void h_aggr_arg() { run<generator<Val, int>>([](Src *s, int id) { return source_arg(s, id); }); }
+extern "C" void h_aggr_arg_dtor() { g_dtor_inflight = true; run<generator<Val, int>>([](Src *s, int id) { return source_arg(s, id); }); }
 #endif
